@@ -2,7 +2,8 @@
 // Method signatures are compared with /repo on every run (//@ trait-check); only spec functions
 // and requires/ensures clauses are added.  `spec_cost_bound` is the magnitude bound every
 // implementation must justify from its own well-formedness predicate.
-pub trait Connector {
+/// spec-only supertrait: the cost model every connector denotes (added; has no executable content)
+pub trait CostModel {
     spec fn conn_wf(&self) -> bool;
     spec fn spec_num_left(&self) -> int;
     spec fn spec_num_right(&self) -> int;
@@ -15,7 +16,9 @@ pub trait Connector {
             0 <= self.spec_cost_bound(),
             forall|r: u16, l: u16| (r as int) < self.spec_num_right() && (l as int) < self.spec_num_left() ==>
                 -self.spec_cost_bound() <= #[trigger] self.spec_cost(r, l) <= self.spec_cost_bound();
+}
 
+pub trait Connector: CostModel {
     fn num_left(&self) -> (r: usize)
         requires self.conn_wf(),
         ensures r as int == self.spec_num_left();
